@@ -183,6 +183,14 @@ def rule_sides(ctx):
     need(len(c2) == 1, R, "intervals_to_samples no longer calls interpolate_intervals")
     a = c2[0].args
     good = len(a) == 4 and a[0].op == "param" and a[0].a[0] == "intervals" and a[1].op == "param" and a[1].a[0] == "labels" and a[3].op == "param" and a[3].a[0] == "fill_value" and {"sample_size", "offset"} <= tm.params_of(a[2])
+    # ... and the labels are looked up at the very sample times that are returned next to them
+    rt2 = [r.term for r in s2.returns if r.term.op == "tuple" and len(r.term.a) == 2]
+    if good and rt2:
+        times_out = rt2[0].a[0]
+        t_in = a[2]
+        strip_ = lambda z: z.a[1][0] if z.op == "call" and call_name(z) in (".tolist", "builtins.list", "np.asarray", "np.array") and z.a[1] else z
+        same = strip_(times_out) is strip_(t_in)
+        yield ob(R, f2, "util.intervals_to_samples:same-times", same, "labels are sampled at the returned sample times" if same else "labels are sampled at %s while %s is returned as the sample times: a clipped / shifted query grid labels samples outside the annotation instead of giving them fill_value" % (tm.show(t_in, 3), tm.show(times_out, 3)), node=c2[0].node)
     yield ob(R, f2, "util.intervals_to_samples:delegates", good, "samples are interpolate_intervals(intervals, labels, grid(sample_size, offset), fill_value)")
 
 
